@@ -8,15 +8,17 @@ import (
 	c "golang.org/x/telemetry/internal/verif/vstk/a.b/c"
 	ted "golang.org/x/telemetry/internal/verif/vstk/dot.ted"
 	"golang.org/x/telemetry/internal/verif/vstk/long"
+	"golang.org/x/telemetry/internal/verif/vstk/uni"
 	"golang.org/x/telemetry/internal/verif/vstk/v2"
 )
 
 // NumSteps is the number of distinct chain elements.
-const NumSteps = 16 + long.N
+const NumSteps = 16 + long.N + uni.N
 
 // Names describes the chain elements (for evidence samples).
 var Names = [...]string{"c.F", "c.T.M", "c.(*T).PM", "c.G[int]", "c.G[string]", "c.Inl", "c.Closure", "v2.F", "v2.Long.method", "v2.G[int,string]", "ted.F", "ted.S.M", "c.FG>G[float64]", "c.GF[int]>F", "c.FBox>(*Box[string]).M>F", "c.GG[int]>GF[[]int]>F",
-	"long.00", "long.01", "long.02", "long.03", "long.04", "long.05", "long.06", "long.07", "long.08", "long.09", "long.10", "long.11"}
+	"long.00", "long.01", "long.02", "long.03", "long.04", "long.05", "long.06", "long.07", "long.08", "long.09", "long.10", "long.11",
+	"uni.2byte", "uni.3byte", "uni.mixed"}
 
 // Run executes the chain from position i and finally calls leaf.
 func Run(chain []int, i int, leaf func()) {
@@ -58,7 +60,9 @@ func Run(chain []int, i int, leaf func()) {
 		c.FBox(next)
 	case 15:
 		c.GG(1, next)
-	default:
+	case 16, 17, 18, 19, 20, 21, 22, 23, 24, 25, 26, 27:
 		long.Call(chain[i]-16, next)
+	default:
+		uni.Call(chain[i]-16-long.N, next)
 	}
 }
